@@ -200,6 +200,9 @@ func (g *gen) num(d int, vars []string) N {
 		return g.orZero(N{"k": "mcall", "name": g.macro[1], "args": append([]any{N{"k": "var", "n": v}}, body...),
 			"exp": N{"k": "let", "bs": []any{N{"n": v, "e": mwTail()}}, "body": body}})
 	}
+	if d >= 2 && g.one(25) {
+		return g.redefun(d, vars)
+	}
 	if g.one(9) {
 		return g.more(d, vars)
 	}
@@ -619,6 +622,28 @@ func (g *gen) resource(d int, vars []string) N {
 	body = append(body, g.body(d-1, vars)...)
 	return N{"k": "let", "bs": []any{N{"n": keep, "e": lit(nilV()), "bare": g.rng.Intn(3)}}, "body": []any{
 		N{"k": "protect", "e": N{"k": "withfile", "var": fs, "body": body}, "cleanup": []any{held()}}}}
+}
+
+// redefun: a defun form evaluated twice with the same text under two bindings of the variable its body uses (inside a let, or
+// inside a function called twice): the function closes over the binding in force each time
+//
+//	(progn (let ((k 3)) (defun cf () (setq k (+ k 1))) 0) (cf) (let ((k 50)) (defun cf () (setq k (+ k 1))) 0) (+ (cf) (cf)))
+func (g *gen) redefun(d int, vars []string) N {
+	g.fctr++
+	name := fmt.Sprintf("cf%d-%d", g.rng.Intn(1000), g.fctr)
+	k := g.fresh()
+	kv := N{"k": "var", "n": k}
+	def := N{"k": "defun", "name": name, "ps": []any{}, "body": []any{g.m(N{"k": "setq", "n": k, "e": N{"k": "add", "a": kv, "b": lit(I(1))}})}}
+	call := func() N { return N{"k": "call", "f": name, "args": []any{}} }
+	a1, a2 := g.rng.Intn(10), 50+g.rng.Intn(10)
+	under := func(a int) N {
+		if g.one(2) {
+			return N{"k": "let", "bs": []any{N{"n": k, "e": lit(I(a))}}, "body": []any{def, lit(I(0))}}
+		}
+		// ((lambda (k) (defun ...) 0) a)
+		return N{"k": "fcall", "f": N{"k": "lam", "ps": []any{k}, "body": []any{def, lit(I(0))}}, "args": []any{lit(I(a))}, "spread": false, "inline": g.one(2)}
+	}
+	return N{"k": "progn", "es": []any{under(a1), g.m(call()), under(a2), g.m(N{"k": "add", "a": call(), "b": call()})}}
 }
 
 // mwTail is the comma-free part of the templates of the program's macros: (car (cdr (list 0 4 2)))
@@ -1125,6 +1150,12 @@ func render(n N) string {
 		return fmt.Sprintf("(%s %s%s)", name, render(n["f"].(N)), rlist(n["args"].([]any)))
 	case "call":
 		return fmt.Sprintf("(%s%s)", n["f"], rlist(n["args"].([]any)))
+	case "defun":
+		var ps []string
+		for _, p := range n["ps"].([]any) {
+			ps = append(ps, p.(string))
+		}
+		return fmt.Sprintf("(progn (defun %s (%s)%s) nil)", n["name"], strings.Join(ps, " "), rlist(n["body"].([]any)))
 	case "mcall":
 		return fmt.Sprintf("(%s%s)", n["name"], rlist(n["args"].([]any)))
 	case "mapcar", "mapc", "mapcan", "maplist", "every", "some":
